@@ -180,6 +180,7 @@ let () =
         run_sw id (int_of_string ver) (int_of_string comp) (ints_of reads) (ints_of sizes) ops
       | [id; "RF"] -> run_rf id ops
       | id :: "CZ" :: _ -> Printf.printf "%s CZ\n" id
+      | id :: "BG" :: _ -> Printf.printf "%s BG\n" id
       | id :: _ -> Printf.printf "%s ? unparsed\n" id
       | [] -> ()
     end)
